@@ -106,7 +106,7 @@ def parse_build_errors(text):
 
 
 AUDIT_TMPL = '''import Lean
-import {module}
+{imports}
 open Lean Elab Command in
 run_cmd do
   let env ← getEnv
@@ -122,10 +122,11 @@ run_cmd do
 '''
 
 
-def audit(module, ns):
+def audit(module, ns, more=()):
     os.makedirs(WORK, exist_ok=True)
     path = os.path.join(WORK, f'Audit_{ns.replace(".", "_")}_{os.getpid()}.lean')
-    open(path, 'w').write(AUDIT_TMPL.format(module=module, ns=ns))
+    imports = '\n'.join(f'import {m}' for m in [module] + list(more))
+    open(path, 'w').write(AUDIT_TMPL.format(imports=imports, ns=ns))
     rc, out, err = run(['lake', 'env', 'lean', path], cwd=LEAN, timeout=1200)
     os.remove(path)
     if rc != 0:
@@ -232,7 +233,7 @@ def check_property(pid, tier_):
             drv_ok = False
         # 2. PROVE (and build the driver used by the tie)
         if ok:
-            targets = ([module] if module else []) + P.get('extra_modules', [])
+            targets = ([module] if module else []) + P.get('extra_modules', []) + list(P.get('more_proof_modules', ()))
             bok, btxt = lake_build(targets) if targets else (True, '')
             if not bok:
                 build_ok = False
@@ -241,8 +242,9 @@ def check_property(pid, tier_):
                     raise Infra('lake build failed without a parsable Lean error:\n' + btxt[-3000:])
                 for e in errs[:10]:
                     broken.append({'kind': 'proof', 'what': f"{e['file']}:{e['line']} in `{e['decl']}`: {e['message']}", **e})
-            if P.get('needs_driver', True):
-                dok, dtxt = lake_build(['geodrv'])
+            drv_targets = (['geodrv'] if P.get('needs_driver', True) else []) + list(P.get('drivers', []))
+            if drv_targets:
+                dok, dtxt = lake_build(drv_targets)
                 if not dok:
                     drv_ok = False
                     errs = parse_build_errors(dtxt)
@@ -252,7 +254,7 @@ def check_property(pid, tier_):
                         broken.append({'kind': 'model-build', 'what': f"{e['file']}:{e['line']} in `{e['decl']}`: {e['message']}", **e})
         # 3. AUDIT
         if build_ok and module:
-            thms = audit(module, ns)
+            thms = audit(module, ns, P.get('more_proof_modules', ()))
             native_ok = set(P.get('native_theorems', []))
             for n, ax in thms.items():
                 extra = set(ax) - STD_AXIOMS
@@ -287,7 +289,7 @@ def check_property(pid, tier_):
     # hand-model correspondence (model driver implemented by the property's own script)
     corr_rep = None
     corr_violations = []
-    if P.get('correspondence'):
+    if P.get('correspondence') and drv_ok:
         outp = os.path.join(WORK, f'corr_{pid}_{os.getpid()}.json')
         cmd = [PY, os.path.join(VERIF, 'harness', P['correspondence']), '--out', outp]
         rc, corr_rep, txt = run_json_tool(cmd, outp, 3000, env)
@@ -427,6 +429,7 @@ def setup():
             if P.get('module'):
                 targets.append(P['module'])
             targets += P.get('extra_modules', [])
+            targets += list(P.get('more_proof_modules', ()))
             targets += P.get('drivers', [])
         ok, txt = lake_build(sorted(set(targets)), timeout=7000)
         if not ok:
